@@ -259,6 +259,12 @@ func coqCalls(calls []hcallJ) string {
 
 // ---------- execution ----------
 
+type incarnationT struct {
+	op      *operator.Operator
+	cancel  context.CancelFunc
+	stopped chan struct{}
+}
+
 func (eng) executeCk(c *hx.Case) (*hx.Result, error) {
 	cf := cfgOf(c)
 	batch := getInt(c.Params, "batch", 2)
@@ -281,7 +287,20 @@ func (eng) executeCk(c *hx.Case) (*hx.Result, error) {
 	if err != nil {
 		return nil, err
 	}
-	defer os.RemoveAll(dir)
+	var all []*incarnationT
+	// nothing of the code under test may still touch the directory when it is removed (also on error paths): every
+	// incarnation is stopped and its DKV's background tasks are awaited first; a late panic would be attributed to the next case
+	defer func() {
+		for _, inc := range all {
+			inc.op.Halt()
+			inc.cancel()
+			<-inc.stopped
+			if db := inc.op.VerifDKV(); db != nil {
+				db.WaitOnTasks()
+			}
+		}
+		os.RemoveAll(dir)
+	}()
 	srNames := make([]string, len(cf.SrIDs))
 	for i, id := range cf.SrIDs {
 		srNames[i] = srName(id)
@@ -293,18 +312,17 @@ func (eng) executeCk(c *hx.Case) (*hx.Result, error) {
 	h := &ckHandler{seen: map[uint64]bool{}}
 	job := &workerstest.DummyJob{}
 
-	type incarnation struct {
-		op      *operator.Operator
-		stopped chan struct{}
-	}
+	type incarnation = incarnationT
 	start := func(m int, ckpts ...*snapshotpb.OperatorCheckpoint) (*incarnation, error) {
 		op := operator.NewOperator(operator.NewOperatorParams{
 			ID: "op1", UserHandler: h, Job: job,
 			EventBatching: batching.EventBatcherParams{MaxSize: m}, // MaxDelay 0: a batch is processed exactly when full
 		})
 		op.Logger = quiet
-		inc := &incarnation{op: op, stopped: make(chan struct{})}
-		go func() { defer close(inc.stopped); op.Start(ctx) }()
+		ictx, cancel := context.WithCancel(ctx)
+		inc := &incarnation{op: op, cancel: cancel, stopped: make(chan struct{})}
+		go func() { defer close(inc.stopped); op.Start(ictx) }()
+		all = append(all, inc)
 		if err := op.HandleDeploy(ctx, &workerpb.DeployOperatorRequest{
 			Operators:       []*jobpb.NodeIdentity{{Id: "op1", Host: "h"}},
 			SourceRunnerIds: srNames,
@@ -316,26 +334,24 @@ func (eng) executeCk(c *hx.Case) (*hx.Result, error) {
 		}
 		return inc, nil
 	}
+	// see executeOp: no give-up deadline, the sleep only paces the polling
 	send := func(inc *incarnation, sender string, ev *workerpb.Event) error {
-		var err error
-		for try := 0; try < 400; try++ {
-			err = inc.op.HandleEvent(ctx, sender, ev)
+		for {
+			err := inc.op.HandleEvent(ctx, sender, ev)
 			if err == nil || !strings.Contains(err.Error(), "not ready") {
 				return err
 			}
 			time.Sleep(time.Millisecond)
 		}
-		return err
 	}
 	// a crash kills the process: nothing of the old incarnation runs on. Here the old Operator lives in the same process,
 	// so its DKV's background flushes / compactions are awaited before anything else touches the storage directory.
 	halt := func(inc *incarnation) error {
+		// Halt (no deregistration), then the cancellation of the context Start runs under: Start returns whether or not it
+		// had already installed its own stop function. Waited for without a deadline (hx's hang detector is the only clock).
 		inc.op.Halt()
-		select {
-		case <-inc.stopped:
-		case <-time.After(10 * time.Second):
-			return fmt.Errorf("operator did not stop")
-		}
+		inc.cancel()
+		<-inc.stopped
 		if db := inc.op.VerifDKV(); db != nil {
 			if err := db.WaitOnTasks(); err != nil {
 				return fmt.Errorf("old incarnation's DKV tasks: %v", err)
